@@ -616,7 +616,14 @@ func (x *Exec) appendBuiltin(st *State, s, t Value, rt types.Type, pos token.Pos
 		} else {
 			src, so = elemArr(st, et, c, t.C[0]), t.C[1]
 		}
-		na := x.bulkCopy(base, Add(s.C[1], s.C[2]), src, so, n)
+		do := Add(s.C[1], s.C[2])
+		na := x.bulkCopy(base, do, src, so, n)
+		if c.Iface && na.Op == "var" {
+			// slices of interface values are searched by content: the same fact keyed by the source
+			// position (a reader of src[j] learns where it went)
+			j := BVar(fmt.Sprintf("j?c%d", freshSeq["copy"]), SInt)
+			x.assumeNeed(na.Name, Forall([]*Term{j}, Implies(And(Le(so, j), Lt(j, Add(so, n))), Eq(Select(na, Add(do, Sub(j, so))), Select(src, j))), Select(src, j)))
+		}
 		setElemArr(st, et, c, ref, na)
 	}
 	// (appending nothing to a nil slice keeps it nil: it fits, so ref is the old reference)
@@ -1332,7 +1339,12 @@ func (x *Exec) frameObligations(kind string, f *frame, entry, hv *State, sc *spe
 				x.oblige(kind, nil, out.pc, Forall([]*Term{i}, Implies(And(ic...), Eq(Select(Select(cur, in.ref), i), Select(Select(ent, in.ref), i)))), f.fn.Pos(), "unchanged outside the modifies clause (elements): "+name)
 			}
 		} else {
-			goal = Implies(Le(r, c0), Eq(Select(cur, r), Select(ent, r)))
+			lo := Le(r, c0)
+			if strings.HasPrefix(name, "elems.") {
+				// no array lives at reference 0 (the nil slice): nothing readable there
+				lo = And(Ne(r, Num(0)), lo)
+			}
+			goal = Implies(lo, Eq(Select(cur, r), Select(ent, r)))
 		}
 		x.oblige(kind, nil, out.pc, Forall([]*Term{r}, goal), f.fn.Pos(), "unchanged outside the modifies clause: "+name)
 	}
